@@ -21,6 +21,9 @@ pub enum HashKind {
     Right,
     OneBitOff(u8),
     Random(u64),
+    /// a different value that collides with the right one under sloppy canonicalisations: two adjacent bytes re-split
+    /// on a nibble boundary (0x0A 0xBC -> 0xAB 0x0C), where the right hash allows it; else one byte changed by case bit
+    Lookalike(u8),
 }
 
 #[derive(Clone, Debug, Serialize, Deserialize)]
@@ -53,7 +56,7 @@ pub struct Case {
 fn hs_strategy() -> BoxedStrategy<Hs> {
     (
         prop_oneof![6 => Just(Pstr::Right), 1 => Just(Pstr::WrongSameLen), 1 => Just(Pstr::WrongLen)],
-        prop_oneof![5 => Just(HashKind::Right), 2 => any::<u8>().prop_map(HashKind::OneBitOff), 1 => any::<u64>().prop_map(HashKind::Random)],
+        prop_oneof![5 => Just(HashKind::Right), 2 => any::<u8>().prop_map(HashKind::OneBitOff), 1 => any::<u64>().prop_map(HashKind::Random), 2 => any::<u8>().prop_map(HashKind::Lookalike)],
         prop::bool::weighted(0.75),
     )
         .prop_map(|(pstr, hash, expected_id)| Hs { pstr, hash, expected_id })
@@ -127,6 +130,20 @@ pub fn check(c: &Case) -> Outcome {
                             HashKind::Right => {}
                             HashKind::OneBitOff(b) => hash[(*b as usize / 8) % 20] ^= 0x80 >> (*b % 8),
                             HashKind::Random(s) => hash.copy_from_slice(&content(*s, 20)),
+                            HashKind::Lookalike(k) => {
+                                // first position (from a generated start) where byte < 0x10 is followed by any byte
+                                let start = *k as usize % 19;
+                                let pos = (0..19).map(|d| (start + d) % 19).find(|p| hash[*p] < 0x10 && hash[*p + 1] >= 0x10);
+                                match pos {
+                                    Some(p) => {
+                                        let (x, y) = (hash[p], hash[p + 1]);
+                                        hash[p] = (x << 4) | (y >> 4);
+                                        hash[p + 1] = y & 0x0f;
+                                        classes.push("lookalike-hash-nibble-resplit");
+                                    }
+                                    None => hash[start] ^= 0x20,
+                                }
+                            }
                         }
                         let mut id = expected_id;
                         if !h.expected_id {
